@@ -302,7 +302,80 @@ func HarnessC15Reuse(quiet int) {
 	verifrt.Cover("end", true)
 }
 
+// HarnessC13Wide: ONE split MGET over k slots (k fragments, on both nodes), EVERY fragment answered with a
+// redirect to node C (MOVED or ASK, the solver's choice per fragment): each fragment is re-sent to C with
+// its ASKING, C answers them, and the client receives exactly the k values in request order - however many
+// fragments of the one request were redirected.
+func HarnessC13Wide(k int) {
+	w, _ := verifWorld2(core.VerifDefaultOptions())
+	w.AddPool("C:1", false)
+	c := w.NewClient("10.0.0.1:5000")
+	tags := []byte("adehbcfgilmp") // single-letter hash tags with pairwise different slots
+	args := [][]byte{[]byte("mget")}
+	var keys [][]byte
+	for i := 0; i < k; i++ {
+		key := []byte{'{', tags[i], '}', 'x'}
+		keys = append(keys, key)
+		args = append(args, key)
+	}
+	w.Feed(c, core.VerifEncode(args...))
+	w.RunTasks()
+	// every fragment is answered with a redirect
+	nfrag := 0
+	asked := map[string]bool{}
+	for _, s := range w.SortedServers() {
+		if s.Addr == "C:1" {
+			continue
+		}
+		_, got := core.VerifRedisParse(w.Sent(s))
+		for _, g := range got {
+			verifrt.Assert(len(g) == 2, "one_key_per_fragment")
+			slot := core.VerifSpecSlotOf(g[1])
+			kind := "-MOVED "
+			if verifrt.Choice("ask", 2) == 1 {
+				kind = "-ASK "
+				asked[string(g[1])] = true
+			}
+			w.Feed(s, []byte(kind+vItoa(slot)+" C:1\r\n"))
+			w.RunTasks()
+			nfrag++
+		}
+	}
+	verifrt.Assert(nfrag == k, "one_fragment_per_slot")
+	verifrt.Assert(len(w.Sent(c)) == 0, "redirect_not_visible_to_client")
+	verifrt.Assert(len(w.ByAddr["C:1"]) == 1, "fragments_resent_to_named_node")
+	C := w.ByAddr["C:1"][0]
+	_, gotC := core.VerifRedisParse(w.Sent(C))
+	var rsp []byte
+	n := 0
+	for i, g := range gotC {
+		if len(g) == 1 && string(g[0]) == "ASKING" {
+			verifrt.Assert(i+1 < len(gotC) && len(gotC[i+1]) == 2 && asked[string(gotC[i+1][1])], "ASKING_immediately_before_its_request")
+			rsp = append(rsp, "+OK\r\n"...)
+			continue
+		}
+		verifrt.Assert(len(g) == 2 && string(g[0]) == "mget", "target_receives_the_fragments")
+		if asked[string(g[1])] {
+			verifrt.Assert(i > 0 && len(gotC[i-1]) == 1 && string(gotC[i-1][0]) == "ASKING", "ASK_fragment_preceded_by_ASKING")
+		}
+		rsp = append(rsp, append([]byte("*1\r\n"), bulk(g[1])...)...)
+		n++
+	}
+	verifrt.Assert(n == k, "every_fragment_resent_exactly_once")
+	w.Feed(C, rsp)
+	want := []byte("*" + vItoa(k) + "\r\n")
+	for _, key := range keys {
+		want = append(want, bulk(key)...)
+	}
+	out := w.Sent(c)
+	verifrt.ObserveBytes("client", out)
+	verifrt.Assert(verifBytesEq(out, want), "client_receives_exactly_the_final_reply")
+	verifrt.Assert(c.Opened() && !w.Shutdown, "client_and_proxy_stay_up")
+	verifrt.Cover("end", true)
+}
+
 func init() {
+	verifrt.Register("HarnessC13Wide", func(p []int64) { HarnessC13Wide(int(p[0])) })
 	verifrt.Register("HarnessC15Reuse", func(p []int64) { HarnessC15Reuse(int(p[0])) })
 	verifrt.Register("HarnessC16Seq", func(p []int64) { HarnessC16Seq(int(p[0])) })
 	verifrt.Register("HarnessC13Seq", func(p []int64) { HarnessC13Seq(int(p[0]), int(p[1])) })
